@@ -713,15 +713,46 @@ func (s *caseState) evaluate(leader string, ens []string, focus string) {
 			}
 		}
 	}
-	// ---- C03: pairwise log agreement at or below either commit offset; equal databases at equal commit offset
+	// ---- C03: pairwise log agreement at or below the commit offset both replicas have reached; equal databases at
+	// equal commit offset. (A replica that has not been re-attached by the current leader yet - its commit offset is
+	// still the old one - may hold an uncommitted tail of a deposed leader above its own commit offset; the leader
+	// truncates it when it attaches the replica, and from then on its commit offset follows the leader's.)
 	names := sortedKeys(logs)
+	// attached: the final leader, and every node that has acknowledged an entry to it since the node last (re)started
+	attached := map[string]bool{leader: true}
+	finalTerm := int64(-1)
+	for _, e := range events {
+		if e.Kind == "becomeleader.ok" && e.From == leader && e.Term > finalTerm {
+			finalTerm = e.Term
+		}
+	}
+	for _, e := range events {
+		switch e.Kind {
+		case "node.stop", "node.start", "node.restart":
+			delete(attached, e.From)
+			if e.From == leader {
+				attached[leader] = true
+			}
+		case "ack":
+			if e.Term == finalTerm && e.To == leader {
+				attached[e.From] = true
+			}
+		}
+	}
 	for i := 0; i < len(names); i++ {
 		for j := i + 1; j < len(names); j++ {
 			a, b := names[i], names[j]
 			ca, cb := commits[a], commits[b]
 			maxc := ca
-			if cb > maxc {
+			if cb < maxc {
 				maxc = cb
+			}
+			if attached[a] && attached[b] {
+				// both follow (or are) the final leader: whatever either of them has committed binds the other
+				maxc = ca
+				if cb > maxc {
+					maxc = cb
+				}
 			}
 			bm := map[int64]*proto.LogEntry{}
 			for _, e := range logs[b] {
